@@ -34,6 +34,14 @@ Fixpoint argmin_aux (best : Q) (bi i : Z) (l : list Q) : Z :=
   end.
 Definition argmin (l : list Q) : Z := match l with [] => 0 | x :: t => argmin_aux x 0 1 t end.
 
+(* Series.argmax(), only so that a regenerated `argmax` has a meaning (the bridge then fails) *)
+Fixpoint argmax_aux (best : Q) (bi i : Z) (l : list Q) : Z :=
+  match l with
+  | [] => bi
+  | x :: t => if qltb best x then argmax_aux x i (i + 1) t else argmax_aux best bi (i + 1) t
+  end.
+Definition argmax (l : list Q) : Z := match l with [] => 0 | x :: t => argmax_aux x 0 1 t end.
+
 (* rank column and best_index_ from the mean scores, given the VALUE passed as `ascending=` *)
 Definition select (ascending : pyval) (means : list Q) : list Q * Z :=
   let rk := ranks (truthy ascending) means in (rk, argmin rk).
